@@ -84,6 +84,12 @@ def foreign(token, ver, s, o):
 
 def check_ops(inp):
     ver, s, ops = inp["ver"], inp["s"], inp["ops"]
+    for b in inp.get("before") or ():
+        # sequences on OTHER objects executed earlier in the process (a failure that needs them was found that way)
+        try:
+            check_ops({"ver": b["ver"], "s": b["s"], "ops": b["ops"]})
+        except BaseException:  # noqa
+            pass
     ref.parse(ver, s)
     C = obs.classes()[ver]
     A = accessors(ver)
@@ -204,6 +210,11 @@ def shared_part(n_examples, shard):
     return part
 
 
+import collections  # noqa: E402
+RECENT = collections.deque(maxlen=40)
+FAILED = []
+
+
 def hyp_part(n_examples, shard, steps):
     """
     The state machine only GENERATES the operation sequence (rules append to a list); the invariant
@@ -237,7 +248,9 @@ def hyp_part(n_examples, shard, steps):
             self.twin = C(self.s)
 
         def _fail(self, exp, got, note):
-            raise runner.Falsified("ops", {"ver": self.ver, "s": self.s, "ops": list(self.ops)}, [failure(exp, got, note=note)])
+            inp = {"ver": self.ver, "s": self.s, "ops": list(self.ops)}
+            FAILED.append((inp, failure(exp, got, note=note)))
+            raise runner.Falsified("ops", inp, [failure(exp, got, note=note)])
 
         @rule(data=st.data())
         def call(self, data):
@@ -301,7 +314,9 @@ def hyp_part(n_examples, shard, steps):
             part.count(inp, nontrivial=(self.repeat_after_other or self.mutated) and len(self.ops) >= 3,
                        classes=("v" + self.ver, "mutated" if self.mutated else "no-mutation", "len>=10" if len(self.ops) >= 10 else "len<10"))
             fails = check_ops(inp)     # final sweep through the replayable check itself
+            RECENT.append(inp)
             if fails:
+                FAILED.append((inp, fails[0]))
                 raise runner.Falsified("ops", inp, fails)
 
     import hypothesis.errors as he
@@ -313,7 +328,27 @@ def hyp_part(n_examples, shard, steps):
             v = {"check": f.check, "input": f.inp}
             v.update(x)
             part.violations.append(v)
-    except (he.Unsatisfiable, he.FailedHealthCheck, he.InvalidArgument, he.Flaky) as e:
+    except he.Flaky as e:
+        # a failure that the library could not replay: it depends on what EARLIER cases did to other objects (state shared
+        # between objects).  Judge the candidates in fresh processes: alone, then preceded by one of the recent cases.
+        found = False
+        for inp, fl in FAILED[:4]:
+            if runner.fresh_fails(PID, "ops", inp):
+                part.add_failures("ops", inp, [fl])
+                found = True
+                break
+            for prev in list(RECENT)[::-1][:12]:
+                cand = dict(inp, before=[prev])
+                if prev is not inp and runner.fresh_fails(PID, "ops", cand):
+                    fl2 = dict(fl, note=(fl.get("note") or "") + " [only after a sequence on ANOTHER object earlier in the process: state is shared between objects]")
+                    part.add_failures("ops", cand, [fl2])
+                    found = True
+                    break
+            if found:
+                break
+        if not found:
+            part.harness_errors.append("C18 machine: %s: %s" % (type(e).__name__, str(e)[:400]))
+    except (he.Unsatisfiable, he.FailedHealthCheck, he.InvalidArgument) as e:
         part.harness_errors.append("C18 machine: %s: %s" % (type(e).__name__, str(e)[:400]))
     return part
 
